@@ -598,7 +598,8 @@ def replay(path):
 
 
 SCOPE = ("proved for every pool interface (parametric model, axiom-free): route_in = fold of (taker fee, pool swap) and = first-hop message then rest-of-route "
-         "message; route_out = backward pre-computation then fold of (pool swap-out with per-hop maximum, taker fee on top); split = sum of legs (iff); "
+         "message; route_out = backward pre-computation then fold of (pool swap-out with per-hop maximum, taker fee on top) and = first-hop message then rest-of-route message; "
+         "taker fee exactly rounded (floor / exact ceiling); split = sum of legs (iff); "
          "limits for all four messages (out >= min, in <= max incl. taker fee, else Err with state unchanged); estimates leave the state unchanged; "
          "estimate = execution for exact-in routes visiting each pool at most once and for ALL exact-out routes - for senders that pay the listed taker fee "
          "(`_partial`); REFUTED for senders on the reduced-fee whitelist under a non-zero taker fee (open finding C05-F2) and, as documented, for repeated pools. "
